@@ -337,15 +337,19 @@ impl<'a> crate::fdl::FdlApplication for DpMaster<'a> {
                         tx = tx_returned;
 
                         if let Some(event) = event {
-                            // If we get here and peripheral_event were already filled, we would
-                            // end up with the problem that only one event can be reported.
-                            //
-                            // However, lucky for us, this should never occur.  The only peripheral
-                            // event we can receive in transmit_telegram() is the Offline event and
-                            // there can never be a situation where multiple peripherals go offline
-                            // in the same poll cycle.
-                            assert!(peripheral_event.is_none());
-                            peripheral_event = Some((handle, event));
+                            // Only one event can be reported per poll cycle, so end our turn here
+                            // and continue with the next peripheral the next time we are called.
+                            // Otherwise, a second peripheral going offline in the same cycle would
+                            // overwrite this event.
+                            let cycle_completed = self.increment_cycle_state(index, now);
+                            if cycle_completed {
+                                self.state.cycle_state = CycleState::DataExchange(0);
+                            }
+                            self.state.last_events = DpEvents {
+                                cycle_completed,
+                                peripheral: Some((handle, event)),
+                            };
+                            return None;
                         }
 
                         // When this peripheral was not interested in sending data, move on to the
